@@ -196,6 +196,11 @@ def _worker(args):
                 res['errors'].append(dict(path=pi, error='validation crashed: %r' % (e,), tb=traceback.format_exc()[-1500:]))
         res['queries'] += pv.queries
         res['solver_s'] += pv.solver_time
+        if pv.client is not None:
+            if pv.client.restarts:
+                res['notes'].append('solver process killed and restarted %d time(s) on hard timeouts' % pv.client.restarts)
+            pv.client.close()
+        res['notes'] += ['slow query: ' + x for x in pv.slow[:12]]
         res['notes'].append('explore: %d queries %.1fs; prove: %d queries %.1fs' % (ex.queries, ex.solver_time, pv.queries, pv.solver_time))
         res['samples'] = pv.samples[:2]
         if paths and not reached and not res['violations'] and not res['inconclusive'] and not res['errors']:
@@ -259,6 +264,91 @@ def _validate(g, pr, rnd, k=2):
 
 
 # ----------------------------------------------------------------------------------------
+def _group_budget(g, tier):
+    """hard wall-clock budget of one obligation group (the worker process is killed beyond it)"""
+    return g.get('budget_s', 900 if tier == 'quick' else 3600)
+
+
+def run_groups(jobs, groups, njobs, tier, show):
+    """one forked process per obligation group, at most njobs at a time, each under a hard
+    wall-clock budget; a killed group is reported inconclusive (exit 2), never as a pass"""
+    import pickle
+    import select
+    pending = list(jobs)
+    running = {}
+    results = []
+    while pending or running:
+        while pending and len(running) < njobs:
+            job = pending.pop(0)
+            r, w = os.pipe()
+            sys.stdout.flush()
+            pid = os.fork()
+            if pid == 0:
+                code = 0
+                try:
+                    os.close(r)
+                    res = _worker(job)
+                    data = pickle.dumps(res)
+                    view = memoryview(data)
+                    while len(view):
+                        n = os.write(w, view[:65536])
+                        view = view[n:]
+                except BaseException:
+                    code = 3
+                    traceback.print_exc()
+                finally:
+                    sv = _server[0]
+                    if sv is not None:
+                        try:
+                            sv.kill()
+                        except Exception:
+                            pass
+                    os._exit(code)
+            os.close(w)
+            running[pid] = dict(job=job, fd=r, t0=time.time(), buf=[])
+        fds = {st['fd']: pid for pid, st in running.items()}
+        rl, _, _ = select.select(list(fds), [], [], 0.5)
+        done = []
+        for fd in rl:
+            pid = fds[fd]
+            chunk = os.read(fd, 1 << 20)
+            if chunk:
+                running[pid]['buf'].append(chunk)
+            else:
+                done.append(pid)
+        now = time.time()
+        for pid, st in list(running.items()):
+            g = groups[st['job'][1]]
+            if pid in done:
+                os.close(st['fd'])
+                _, status = os.waitpid(pid, 0)
+                try:
+                    res = pickle.loads(b''.join(st['buf']))
+                except Exception as e:
+                    res = _dead_result(g, 'worker died without a result (wait status %d, %d bytes received, %r)' % (status, sum(map(len, st['buf'])), e), now - st['t0'])
+                results.append(res)
+                show(res)
+                del running[pid]
+            elif now - st['t0'] > _group_budget(g, tier):
+                try:
+                    os.kill(pid, 9)
+                except OSError:
+                    pass
+                os.close(st['fd'])
+                os.waitpid(pid, 0)
+                res = _dead_result(g, 'group exceeded its wall-clock budget of %ds and was killed' % _group_budget(g, tier), now - st['t0'])
+                results.append(res)
+                show(res)
+                del running[pid]
+    return results
+
+
+def _dead_result(g, why, wall):
+    return dict(group=g['name'], paths=0, obligations=0, discharged=0, vacuous=0, violations=[],
+                inconclusive=[dict(label='*', why=why)], errors=[], queries=0, solver_s=0.0, samples=[], nontrivial=0,
+                validated=0, notes=[], params=_jsonable(g.get('params', {})), wall_s=wall)
+
+
 def load_known(pid):
     p = os.path.join(VERIF, 'known_findings.json')
     if not os.path.exists(p):
@@ -299,18 +389,12 @@ def main(argv=None):
     names = [groups[i]['name'] for i in idx]
     assert len(set(names)) == len(names), 'duplicate group names'
     jobs = [(pid, i, tier, seed) for i in idx]
-    ctx = mp.get_context('fork')
-    results = []
-    if a.jobs <= 1 or len(jobs) == 1:
-        results = [_worker(j) for j in jobs]
-    else:
-        with ctx.Pool(min(a.jobs, len(jobs)), maxtasksperchild=8) as pool:
-            for r in pool.imap_unordered(_worker, jobs, chunksize=1):
-                results.append(r)
-                if a.v:
-                    print('  [%s] paths=%d obl=%d ok=%d viol=%d inc=%d err=%d %.1fs' % (
-                        r['group'], r['paths'], r['obligations'], r['discharged'], len(r['violations']),
-                        len(r['inconclusive']), len(r['errors']), r['wall_s']), flush=True)
+    def show(r):
+        if a.v:
+            print('  [%s] paths=%d obl=%d ok=%d viol=%d inc=%d err=%d %.1fs' % (
+                r['group'], r['paths'], r['obligations'], r['discharged'], len(r['violations']),
+                len(r['inconclusive']), len(r['errors']), r['wall_s']), flush=True)
+    results = run_groups(jobs, groups, max(1, a.jobs), tier, show)
     results.sort(key=lambda r: names.index(r['group']))
 
     known = load_known(pid)
